@@ -763,7 +763,12 @@ class C17(Check):
             new = after.get(P)
             changed = new is None or new[0] != old_bytes
             ys = [i for i, path, a in prompts if a == "y" and path == P]
-            asked = [i for i, path, a in prompts if path == P]
+            # prompts that are, or may be, about P (no announcing record: the
+            # question text mentions overwriting or the file's name)
+            asked = [i for i, path, a in prompts if path == P or (
+                path is None and (
+                    "overwrite" in str(events[i][1]).lower()
+                    or os.path.basename(P) in str(events[i][1])))]
             is_target = P in exact or any(fnmatch.fnmatch(P, g)
                                           for g in globs)
             if P.startswith("in/") or P.startswith("in2/"):
@@ -775,10 +780,12 @@ class C17(Check):
                     return self._fail(op, "file-changed-without-event",
                                       path=P)
                 if is_target and P in exact:
-                    if W and asked and not ys:
+                    if W and asked and not ys and not any(
+                            i in unattributed_y for i in asked):
                         declined_any = True
                         res.stats["probe.declined_kept"] += 1
-                    confirmed = (not W) or bool(ys)
+                    confirmed = (not W) or bool(ys) or (
+                        not ys and any(i in unattributed_y for i in asked))
                     if (confirmed and exc is None and not fault
                             and self._reached(op, P, exact, before, prompts,
                                               W)):
@@ -824,6 +831,8 @@ class C17(Check):
                         self.evo, P, after[P][0]):
                     return self._fail(op, "invalid-new-output", path=P)
                 continue
+            if fault or exc is not None:
+                continue  # a left-over temporary file after a failed write
             return self._fail(op, "unexpected-new-file", path=P,
                               expected=exact + globs)
         if declined_any and len(exact) > 1:
